@@ -731,8 +731,8 @@ def run(chk):
     for i, c in enumerate(cases):
         # quick tier: the exhaustive operator-pair families go to the model one in three (all of them to the implementation)
         add_model(c[4], impl[i], thorough or terms[c[0]][1] not in ("pair", "opfn") or i % 5 == 0)
-    for (text, ex), im in zip(fol_cases, fol_impl):
-        add_model(text, im)
+    for k, ((text, ex), im) in enumerate(zip(fol_cases, fol_impl)):
+        add_model(text, im, thorough or k % 3 == 0 or text.startswith(("del", "has")))
 
     # ---------------------------------------------------------------- malformed inputs: must be rejected
     rej = []   # (text, lexemes, kind)
